@@ -91,6 +91,12 @@ def gen_case(rng, cid):
             c['pir'] = rng.choice([None, None, 0])
             c['pbs'] = rng.choice([None, None, 1500])
     c['sources'] = gen_sources(rng, sizes)
+    if kind == 'tworate' and rng.random() < 0.5:
+        # packets that already carry a colour when they reach this bucket (as after an upstream shaper, or a packet sent
+        # through a shaper a second time): "colours EVERY packet green when all configured buckets covered it ..., yellow
+        # when ..., red when ..." makes the colour a function of this bucket's state alone, so the incoming colour is not
+        # an input of the model. The n-th packet put (over all sources) arrives with precolour[n mod len].
+        c['precolour'] = [rng.choice(['', 'green', 'yellow', 'red', 'red', 'yellow']) for _ in range(rng.randint(1, 7))]
     return c
 
 
@@ -100,12 +106,20 @@ def header(c):
     return f"CASE {c['cid']} tworate {bits(c['cir'])} {bits(c['cbs'])} {fbits(c['pir'])} {fbits(c['pbs'])}"
 
 
-def feeder(env, dev, script, counter):
+ASSUMPTIONS.append('two-rate cases may feed packets that already carry a colour; the incoming colour is not an input of the model nor of the oracle '
+                   '(the property colours every packet by the state of this bucket alone)')
+
+
+def feeder(env, dev, script, counter, pre=None, nput=None):
     for gap, burst in script:
         yield env.timeout(gap)
         for flow, size in burst:
             counter[0] += 1
-            dev.put(make_packet(env, counter[0], flow, size))
+            p = make_packet(env, counter[0], flow, size)
+            if pre:
+                p.color = pre[nput[0] % len(pre)]
+                nput[0] += 1
+            dev.put(p)
 
 
 def run_impl(c):
@@ -117,9 +131,9 @@ def run_impl(c):
         dev = TwoRateTokenBucket(env, c['cir'], c['cbs'], c['pir'], c['pbs'])
         run = FifoRun(env, dev, snap_tr)
     dev.out = Tap(run)
-    counter = [0]
+    counter, nput = [0], [0]
     for script in c['sources']:
-        env.process(feeder(env, dev, script, [0] if c.get('own_ids') else counter))
+        env.process(feeder(env, dev, script, [0] if c.get('own_ids') else counter, c.get('precolour'), nput))
     run.raised = None
     try:
         run.run()
@@ -224,7 +238,9 @@ def oracle(c, run):
                 state = f'{cm!r} committed tokens (no PIR)'
             upd = t
             if colour != want:
-                fail(f'packet {p.packet_id} (size {p.size}) reached the head at {h!r} with {state}: coloured {colour!r}, expected {want!r}', 'tworate-colour')
+                pre = c.get('precolour')
+                came = f' (it arrived carrying colour {pre[k % len(pre)]!r})' if pre else ''
+                fail(f'packet {p.packet_id} (size {p.size}) reached the head at {h!r} with {state}: coloured {colour!r}, expected {want!r}{came}', 'tworate-colour')
                 break
             if tout != t or ut != t:
                 fail(f'packet {p.packet_id} (size {p.size}) reached the head at {h!r} with {state}: released at {tout!r} (update_time {ut!r}), expected {t!r}',
@@ -282,6 +298,8 @@ def run(ctx):
         for rel in r.release:
             if rel[4]:
                 hist['colour:' + rel[4]] += 1
+        if c.get('precolour'):
+            hist['cases_with_precoloured_packets'] += 1
         idle = any(y[0] - x[0] >= 100 for x, y in zip(r.arrivals, r.arrivals[1:]))
         hist['cases_with_idle_gap>=100s'] += idle
         # same-instant coincidences: a packet reaches the head exactly when its predecessor leaves
